@@ -183,6 +183,21 @@ def gen_red_directed(rnd):
                 out.append({"ev": "red", "fn": fn, "form": rnd.choice(["method", "method", "numpy"]), "axis": axis,
                             "axpos": rnd.random() < 0.3,
                             "ph": {"i": [hx(c)] * 6, "f": [hx(x) for x in ff], "im": False, "shape": shape}})
+    # near-ties on either side of a half-integer: different counts, fractions of opposite sign, the
+    # one-double sums count + frac coincide (any ordering that consults the rounded value gets them wrong)
+    for c in (1e10, 2.0 ** 40, -1e10, -(2.0 ** 40) - 1, 2.0 ** 33 + 7, 12345678901.0):
+        for e in (0.4999999, 0.49999995, 0.499999999):
+            ii = [c + 1, c, c + 1, c, c - 1, c]
+            ff = [-e, e, -math.nextafter(e, 0.0), math.nextafter(e, 0.0), e, -e]
+            for fn in RED_FNS:
+                order = list(range(6))
+                if rnd.random() < 0.5:
+                    rnd.shuffle(order)
+                shape, axis = rnd.choice([([6], None), ([6], 0), ([2, 3], 1), ([3, 2], 0), ([6], -1)])
+                out.append({"ev": "red", "fn": fn, "form": rnd.choice(["method", "numpy"]), "axis": axis,
+                            "axpos": rnd.random() < 0.3,
+                            "ph": {"i": [hx(ii[k]) for k in order], "f": [hx(ff[k]) for k in order], "im": False,
+                                   "shape": shape}})
     return out
 
 
